@@ -59,7 +59,11 @@ var c20goTypes = map[string]reflect.Type{
 	"[]*string": reflect.TypeOf([]*string{}), "rune-array": reflect.TypeOf([2]byte{}),
 }
 
+// namedString is a user-defined string type (an ID field may be declared with one).
+type namedString string
+
 func init() {
+	c20goTypes["named-string"] = reflect.TypeOf(namedString(""))
 	for _, k := range allKinds {
 		for _, null := range []bool{false, true} {
 			c20goTypes[kindName(k, null)] = goType(k, null)
@@ -128,7 +132,9 @@ func (m c20) genShape(r *RNG) c20shape {
 	// ID field
 	if r.Chance(9, 10) {
 		id := c20field{Name: "ID", Go: "string", JSON: sp("id"), API: sp(r.Pick([]string{"t", "users", "a-b", "type_1"}))}
-		switch r.Intn(12) {
+		switch r.Intn(14) {
+		case 12, 13:
+			id.Go = "named-string" // type UUID string
 		case 0:
 			id.Go = []string{"int", "bytes", "*string", "bool", "[]string", "uint8"}[r.Intn(6)]
 		case 1:
@@ -497,6 +503,8 @@ func (m c20) Directed(c *Ctx) {
 	m.run(c, mk(c20field{Name: "ID", Go: "string", JSON: sp("identifier"), API: sp("t")}, c20field{Name: "F0", Go: "string", JSON: sp("a"), API: sp("attr")}), r)
 	c.Name = "witness-duplicate-json"
 	m.run(c, mk(id, c20field{Name: "F0", Go: "string", JSON: sp("a"), API: sp("attr")}, c20field{Name: "F1", Go: "int", JSON: sp("a"), API: sp("attr")}), r)
+	c.Name = "named-string-id"
+	m.run(c, mk(c20field{Name: "ID", Go: "named-string", JSON: sp("id"), API: sp("t")}, c20field{Name: "F0", Go: "string", JSON: sp("a"), API: sp("attr")}, c20field{Name: "R", Go: "[]string", JSON: sp("r"), API: sp("rel,t,inv")}), r)
 	c.Name = "all-supported-types"
 	all := []c20field{id}
 	for i, g := range c20supported {
